@@ -131,6 +131,45 @@ func init() {
 			return false
 		}
 		text := g2.ToMapDot(include).String()
+		// every other query with a filter also goes through `coca arch -d deps.json -x FILTERS [-H] [-P]`, run in a
+		// report directory in which an unfiltered (larger) graph was drawn just before: coca_reporter/arch.dot as it
+		// stands afterwards is the observation
+		usable := len(filters) > 0
+		for _, f := range filters {
+			if f == "" || strings.Contains(f, ",") {
+				usable = false
+			}
+		}
+		if cliEnabled() && usable && (len(text)+len(filters))%2 == 0 {
+			sess := newCliSess()
+			defer sess.close()
+			sess.writeJSON("deps.json", deps)
+			idents := []core_domain.CodeDataStruct{}
+			for _, k := range in.Nth(1).StrList() {
+				i := strings.LastIndex(k, ".")
+				if i < 0 {
+					idents = append(idents, core_domain.CodeDataStruct{NodeName: k})
+				} else {
+					idents = append(idents, core_domain.CodeDataStruct{Package: k[:i], NodeName: k[i+1:]})
+				}
+			}
+			sess.writeJSON("identify.json", idents)
+			sess.run("arch", "-d", "coca_reporter/deps.json", "-x", "")
+			args := []string{"arch", "-d", "coca_reporter/deps.json", "-x", strings.Join(filters, ",")}
+			if kind == "header" || kind == "both" {
+				args = append(args, "-H")
+			}
+			if kind == "package" || kind == "both" {
+				args = append(args, "-P")
+			}
+			if out, ok := sess.run(args...); !ok {
+				text = "!CLI-ERROR " + panicClass(out)
+			} else if t, ok := sess.read("arch.dot"); !ok {
+				text = "!CLI-NO-OUTPUT arch.dot"
+			} else {
+				text = t
+			}
+		}
 		wf, keys, edges := dotObs(text)
 		return L(an, ar, mn, mr, B(wf), Strs(keys), sxPairsSorted(edges))
 	})
